@@ -1,24 +1,31 @@
 CHECK = dict(
     level="exploration",
-    level_text="Generated-schedule search. (a) rapid operation sequences (start-accept, deliver-conn, close-conn once/again/concurrently, close-listener once/again, add-listener, accept on a closed listener) over 1-4 fake listeners sharing one real Limiter, stop 1..6, resume 0..stop; after every operation the harness waits for quiescence decided from state (every accept goroutine finished, blocked in the fake listener, or parked in sync.Cond.Wait with no notification pending) and compares counter.current / isAccepting with a hysteresis reference, checks open+pending <= stop at every entry of the underlying Accept, that no accept on an open listener stays parked while the counter accepts, that a closed listener has no waiters, and that every connection releases exactly one slot. Operations also include a failing pending underlying Accept (transient error, ECONNABORTED), underlying Close calls that report errors, listeners of mixed transports, and batches of 2-4 accepts/closes in flight at once (conn close racing listener close). The bare counter is checked against the same reference on random increment/decrement sequences. (c) the limiter in the real stack: a ServerDNS(TCP) and a ServerTLS share one Limiter through NewListenConfig with pipeline limiting and optionally a 30 ms idle timeout; real loopback clients open, get answered or not (server-side double close), close, reset or idle; a counting listener under the limiter gives open+pending independently: never above stop on entry of Accept, no connection closed twice under the limiter, and after shutdown (decided when the goroutine dump shows no server goroutine left) the counter equals the connections really still open; a connection the server itself never closes is recorded as left-open-by-server-at-shutdown, not judged. (b) bursts of 1..20 pipelined queries on one connection to real ServerDNS(TCP)/ServerTLS instances with MaxPipelineCount 1..4 and a handler parked on a harness channel: concurrent handler invocations <= limit at all times, every query answered exactly once after release; the same bound (and nothing answered twice) with a request-context deadline of 30-80 ms, queries arriving in two waves and a context-ignoring handler that keeps the pipeline full for 1.3-2.5 deadlines. Held on N generated cases is evidence, not proof.",
+    level_text="Generated-schedule search. (a) rapid operation sequences (start-accept, deliver-conn, close-conn once/again/concurrently, close-listener once/again, add-listener, accept on a closed listener) over 1-4 fake listeners sharing one real Limiter, stop 1..6, resume 0..stop; after every operation the harness waits for quiescence decided from state (one stop-the-world goroutine dump shows every accept goroutine finished, blocked in the fake listener, or parked; the harness' own counters did not move around the dump) and compares which accepts were admitted, which returned and how many connections are open with a hysteresis reference that carries the set of possible values of the accepting flag (the limiter's counter.current / isAccepting are compared too when they can still be read reflectively; nothing unexported is needed to build), checks open+pending <= stop at every entry of the underlying Accept, that no accept on an open listener stays parked while the counter accepts, that a closed listener has no waiters, and that every connection releases exactly one slot. Operations also include a failing pending underlying Accept (transient error, ECONNABORTED), underlying Close calls that report errors, listeners of mixed transports, and batches of 2-4 accepts/closes in flight at once (conn close racing listener close). Waiting-accepts-proceed is judged at that quiescence: no operation pending, every waiter parked, reference must accept => the waiter can never proceed => violation (state, not time-out). (c) the limiter in the real stack: a ServerDNS(TCP) and a ServerTLS share one Limiter through NewListenConfig with pipeline limiting and optionally a 30 ms idle timeout; real loopback clients open, get answered or not (server-side double close), close, reset or idle; a counting listener under the limiter gives open+pending independently: never above stop on entry of Accept, no connection closed twice under the limiter, and after shutdown (decided when the goroutine dump shows no server goroutine left) the counter equals the connections really still open; a connection the server itself never closes is recorded as left-open-by-server-at-shutdown, not judged. (b) bursts of 1..20 pipelined queries on one connection to real ServerDNS(TCP)/ServerTLS instances with MaxPipelineCount 1..4 and a handler parked on a harness channel: concurrent handler invocations <= limit at all times, every query answered exactly once after release; the same bound (and nothing answered twice) with a request-context deadline of 30-80 ms, queries arriving in two waves and a context-ignoring handler that keeps the pipeline full for 1.3-2.5 deadlines. Held on N generated cases is evidence, not proof.",
     level_note="The harness owns the order of accept/close operations; which waiter a wake-up reaches, and the interleaving of goroutines woken by one operation, are sampled from the Go scheduler (the oracle accepts every legal order). Over-admission in (b) is observed through a 2-4 ms window after each predicted arrival, so a late over-admitted query can be missed; a stalled connection is a violation only when a goroutine dump proves the reader can never get a slot, otherwise inconclusive.",
     technique="property-based testing (rapid): stateful operation sequences over fake listeners vs a hysteresis reference model with state-decided quiescence; generated bursts against real loopback TCP/DoT servers with a blocking handler",
     assumptions=[
-        "Go runtime and sync.Cond are trusted; parked-without-notification is read from sync.Cond's ticket counters (self-tested at start, inconclusive if the toolchain differs)",
+        "Go runtime is trusted; parked goroutines are recognised in runtime.Stack dumps by their wait reason (sync.Cond.Wait, channel operations, select); a limiter waiting in another way makes the run inconclusive, not wrong",
         "fake listeners/connections stand in for the kernel: Accept blocks until the harness delivers or closes, Close never fails",
         "loopback TCP, crypto/tls, miekg/dns and the ants worker pool are trusted in the pipeline part",
         "wall-clock time-outs (30 s) are inconclusive, never a violation",
+        "(d) a real dnssvc.Service built by dnssvc.New + dnssvc.NewListener with address-bound and own-listen-config (bind_interfaces-like, counting fake) DNS and DoT servers on one limiter: served connections on address-bound servers + exact open and pending under the own listen configs <= stop",
         "in the stack part resume is kept above the number of listeners, as doc/configuration.md requires (pending accepts count as connections)",
+        "cmd unit: the three lines of builder.initRateLimiter that create the limiters are repeated (the method needs a Consul/backend refresh); 'an accept is parked' is read from a goroutine dump (state sync.Cond.Wait), time only bounds the wait for an inconclusive result; listeners are constructed, never started",
     ],
     units=[
         dict(name="limiter", dir="internal/connlimiter", src="C18/limiter", runs=[
-            dict(name="counter", run="^TestVerifC18Counter$", quick=20000, thorough=1000000, shards_thorough=2),
-            dict(name="sequences", run="^TestVerifC18Limiter$", quick=6000, thorough=600000, shards_thorough=6),
+            dict(name="sequences", run="^TestVerifC18Limiter$", quick=4000, thorough=120000, shards_quick=2, shards_thorough=8),
             dict(name="stack", run="^TestVerifC18Stack$", quick=150, thorough=3000, shards_thorough=4),
         ]),
+        dict(name="wiring", dir="internal/dnssvc", src="C18/wiring", runs=[
+            dict(name="service", run="^TestVerifC18Wiring$", quick=150, thorough=3000, shards_thorough=4),
+        ]),
         dict(name="pipeline", dir="internal/dnsserver", src="C18/pipeline", runs=[
-            dict(name="bursts", run="^TestVerifC18Pipeline$", quick=600, thorough=20000, shards_thorough=4),
-            dict(name="deadline", run="^TestVerifC18PipelineDeadline$", quick=300, thorough=6000, shards_quick=2, shards_thorough=6),
+            dict(name="bursts", run="^TestVerifC18Pipeline$", quick=600, thorough=16000, shards_thorough=4),
+            dict(name="deadline", run="^TestVerifC18PipelineDeadline$", quick=300, thorough=4800, shards_quick=2, shards_thorough=6),
+        ]),
+        dict(name="cmd", dir="internal/cmd", src="C18/cmd", runs=[
+            dict(name="limits-config", run="^TestVerifC18CmdLimits$", quick=400, thorough=20000, shards_quick=2, shards_thorough=6),
         ]),
     ],
 )
